@@ -51,7 +51,7 @@ def palette(enc):
 def consts(enc, **kw):
     fam, bom, _ = ENCODINGS[enc]
     c = dict(Enc=fam, BomLen=len(bom), Palette=set(), MaxStrings=0, MaxLen=0, MaxChunk=0,
-             IncModes={True}, AllowTrunc=True, KeepHist=False)
+             IncModes={True}, AllowTrunc=True, MaxZeros=2, KeepHist=False)
     c.update(kw)
     return c
 
@@ -334,19 +334,23 @@ def main(tier, replay):
     V.phase('model checking')
 
     # 2. behaviours generated by TLC ----------------------------------------------
-    nsim = 3000 if thorough else 700
-    cap = 3000 if thorough else 450      # exhaustive behaviours replayed per configuration
+    nsim = 2500 if thorough else 400
+    cap = None if thorough else 300      # exhaustive behaviours replayed per configuration
+    tiny = {'utf-8': dict(Palette={0x61, 0x20AC, 0x1F600}, MaxStrings=2, MaxLen=1, MaxChunk=3,
+                          MaxZeros=1),
+            'utf-16': dict(Palette={0x61, 0x1F600}, MaxStrings=2, MaxLen=1, MaxChunk=3, MaxZeros=0),
+            'utf-32': dict(Palette={0x1F600}, MaxStrings=1, MaxLen=1, MaxChunk=4, MaxZeros=1),
+            'latin-1': dict(Palette={0x61, 0xE9}, MaxStrings=2, MaxLen=2, MaxChunk=2, MaxZeros=1)}
     gens = []
     for enc in MAIN:
-        tiny = {'utf-8': [0x61, 0x20AC, 0x1F600], 'utf-16': [0x61, 0x1F600],
-                'utf-32': [0x1F600], 'latin-1': [0x61, 0xE9]}[enc]
-        gens.append((enc, consts(enc, Palette=set(tiny), MaxStrings=2, MaxLen=1, MaxChunk=4,
-                                 KeepHist=True), None))
-        gens.append((enc, consts(enc, Palette=set(palette(enc)), MaxStrings=3, MaxLen=2, MaxChunk=7,
-                                 KeepHist=True), nsim))
+        gens.append((enc, consts(enc, KeepHist=True, **tiny[enc]), None))
+        # simulation: complete streams only (truncations come from the exhaustive runs and
+        # from the random executions), so that the walks reach the end of the wire
+        big = dict(Palette=set(palette(enc)), MaxStrings=3, MaxLen=2, MaxChunk=5, MaxZeros=4,
+                   AllowTrunc=False, KeepHist=True)
+        gens.append((enc, consts(enc, **big), nsim))
         if ENCODINGS[enc][1]:    # the independent mode differs only for BOM encodings
-            gens.append((enc, consts(enc, Palette=set(palette(enc)), MaxStrings=3, MaxLen=2,
-                                     MaxChunk=7, IncModes={False}, KeepHist=True), nsim // 10))
+            gens.append((enc, consts(enc, **dict(big, IncModes={False})), nsim // 10))
 
     rng_gen = random.Random(C.seed() + 1717)
 
@@ -358,13 +362,14 @@ def main(tier, replay):
         else:
             r = C.run_tlc('TextCodec', text, workers=1, simulate='num=%d' % sim, depth=60,
                           tlc_seed=C.seed() + 1)
-        b = C.extract_printed(r.stdout, 'BEH')
+        # long tuples are pretty-printed by TLC as `<< "BEH",` over several lines
+        b = C.extract_printed(r.stdout.replace('<< "BEH"', '<<"BEH"'), 'BEH')
         return enc, b, sim is None
     behaviours = {}
     gen_counts = []
     for enc, b, exhaustive in C.par([lambda j=j: gen(j) for j in gens]):
         n_all = len(b)
-        if exhaustive and len(b) > cap:
+        if exhaustive and cap is not None and len(b) > cap:
             b = rng_gen.sample(b, cap)
         gen_counts.append({'encoding': enc, 'exhaustive': exhaustive, 'generated': n_all,
                            'replayed': len(b)})
